@@ -373,6 +373,21 @@ class VC:
                 self.ev(s.value, st)
             elif isinstance(s, ast.Return):
                 st.env["__return__"] = self.ev(s.value, st) if s.value is not None else None
+            elif isinstance(s, ast.AnnAssign):
+                if s.value is not None and isinstance(s.target, ast.Name):
+                    st.env[s.target.id] = self.ev(s.value, st)
+            elif isinstance(s, ast.Assert):
+                # an assert must not be able to fire: proved when its test is within the subset, skipped otherwise
+                # (a test outside the subset -- shapes, isinstance -- is left to the bounded native replays)
+                try:
+                    c = self.ev(s.test, st)
+                except VCError:
+                    c = None
+                if isinstance(c, z3.ExprRef):
+                    self._assert_no = getattr(self, "_assert_no", 0) + 1
+                    self.prove(f"assert {self._assert_no} cannot fire", st.assm, c)
+            elif isinstance(s, ast.Pass):
+                pass
             else:
                 raise VCError("unsupported statement " + type(s).__name__)
 
